@@ -217,7 +217,7 @@ Ltac mn_hook ::=
   lazymatch goal with
   | |- mono (write_fnodes _) => apply mono_write_fnodes
   | |- mono (go_block _) => apply mono_go_block
-  | |- mono (fun g => add_map _ _ _) => let g := fresh "g" in intros g; apply le_n
+  | |- mono (wpk _ _) => let g := fresh "g" in intros g; unfold wpk; destruct (zero_range _); apply le_n
   end.
 Lemma mono_gen_all f : mono (gen_all f).
 Proof. unfold gen_all. mn. Qed.
